@@ -90,9 +90,9 @@ impl Check for C18 {
     }
     fn n_runs(&self, thorough: bool) -> u64 {
         if thorough {
-            30_000
+            230_000
         } else {
-            1_200
+            5_000
         }
     }
     fn gen_plan(&self, seed: u64, idx: u64, _t: bool) -> Value {
